@@ -140,6 +140,28 @@ def build_generator(ctx, P):
         return g, info
     if P["cls"] in ("OneDimSpatial",):
         return cls(candidates=cands), info
+    if P.get("from_params"):
+        # BallotGenerator.from_params: intervals drawn by PreferenceInterval.from_dirichlet (Dirichlet stub: an
+        # arbitrary point of the simplex, i.e. symbolic supports dir<k>_<i>)
+        props = P.get("bloc_voter_prop") or {b: 1.0 / len(blocs) for b in blocs}
+        coh = {b: {b2: (0.75 if b2 == b else 0.25 / max(1, len(blocs) - 1)) for b2 in blocs} for b in blocs}
+        if len(blocs) == 1:
+            coh = {blocs[0]: {blocs[0]: 1.0}}
+        kw = {}
+        if P["cls"] == "short_name_PlackettLuce":
+            kw["ballot_length"] = P["ballot_length"]
+        if P["cls"] == "name_Cumulative":
+            kw["num_votes"] = P["num_votes"]
+        g = cls.from_params(slate_to_candidates=slates, bloc_voter_prop=dict(props), cohesion_parameters=coh,
+                            alphas={b: {b2: 1.0 for b2 in blocs} for b in blocs}, **kw)
+        supports = {}
+        for b in blocs:
+            supports[b] = {}
+            for s_ in blocs:
+                iv = g.pref_intervals_by_bloc[b][s_]
+                supports[b][s_] = {c: (iv.interval[c] if c in iv.interval else RealFraction(0)) for c in slates[s_]}
+        info.update(supports=supports, cohesion=coh, props=props)
+        return g, info
     # bloc models
     supports = {}
     intervals = {}
